@@ -352,8 +352,14 @@ POOLS = {
     'gMonthDay': ['--12-25', '--12-25Z', '--02-29', '--12-25-05:00', '--12-26+10:00', '--12-25-14:00'],
     'gDay': ['---01', '---31', '---31Z', '---31-05:00'],
     'duration': ['P1Y', 'P12M', 'P1Y1D', 'P365D', 'PT0S', 'P0M', '-P1Y', 'P1M', 'P30D', 'P1D', 'PT24H'],
-    'yearMonthDuration': ['P1Y', 'P12M', 'P13M', '-P1M', 'P0M', 'P1M'],
-    'dayTimeDuration': ['P1D', 'PT24H', 'PT86400S', 'PT0S', '-PT1S', 'PT0.5S', 'P10D', 'PT240H', 'P30D', 'P365D'],
+    'yearMonthDuration': ['P1Y', 'P12M', 'P13M', '-P1M', 'P0M', 'P1M', 'P178956970Y7M', 'P178956970Y6M', '-P178956970Y7M',
+                          'P3000000Y', 'P3000000Y1M'],
+    'dayTimeDuration': ['P1D', 'PT24H', 'PT86400S', 'PT0S', '-PT1S', 'PT0.5S', 'P10D', 'PT240H', 'P30D', 'P365D',
+                        # long durations that differ only in the microsecond digits (a binary double stops resolving
+                        # microseconds near 2**33 s)
+                        'P1000000DT0.000001S', 'P1000000DT0.000002S', '-P1000000DT0.000001S', '-P1000000DT0.000002S',
+                        'PT8589934592.000001S', 'PT8589934592.000002S', 'P999999999DT0.000001S', 'P999999999DT0.000011S',
+                        'P1000000000DT0.000001S', 'P1000000000DT0.000002S'],
     'hexBinary': ['', '00', '0a', '0A', '0aFF', 'ff', '0b'],
     'base64Binary': ['', 'AA==', 'Cg==', 'Cv8=', '/w==', 'Cw=='],
 }
@@ -404,3 +410,41 @@ def xpath_of(atom) -> str:
 
 def sequence_of(atoms) -> str:
     return '(' + ', '.join(xpath_of(a) for a in atoms) + ')'
+
+
+# --------------------------------------------------------------------------
+# long durations with microsecond-level differences
+# --------------------------------------------------------------------------
+_DT_BASES = [1, 59, 86400, 2 ** 33 - 1, 2 ** 33, 2 ** 33 + 1, 2 ** 35, 10 ** 6 * 86400, 10 ** 8 * 86400, 999999999 * 86400,
+             10 ** 9 * 86400, 4 * 10 ** 9]
+_YM_BASES = [12, 1200, 32 * 10 ** 6, 33 * 10 ** 6, 10 ** 9, 2 ** 31 - 12]
+
+
+def _dt_lexical(micros: int, style: int) -> str:
+    """xs:dayTimeDuration lexical of a signed number of microseconds"""
+    neg, us = micros < 0, abs(micros)
+    sec, frac = divmod(us, 10 ** 6)
+    fs = ('.%06d' % frac).rstrip('0') if frac else ''
+    if style == 0:
+        body = f'PT{sec}{fs}S'
+    else:
+        d, r = divmod(sec, 86400)
+        h, r = divmod(r, 3600)
+        m, r = divmod(r, 60)
+        body = f'P{d}DT{h}H{m}M{r}{fs}S' if style == 1 else (f'P{d}DT{r + 60 * m + 3600 * h}{fs}S' if d else f'PT{sec}{fs}S')
+    return ('-' if neg and us else '') + body
+
+
+@st.composite
+def duration_family(draw, n=3):
+    """n atoms of one duration type around one long base value: dayTimeDuration x, x + k microseconds (k in 1, 2, 10, ...)
+    for x between 1 s and 10**9 days, or yearMonthDuration m, m + k months up to 2**31 months; both signs"""
+    sign = draw(st.sampled_from([1, 1, -1]))
+    if draw(st.integers(0, 4)) == 0:
+        base = draw(st.one_of(st.sampled_from(_YM_BASES), st.integers(1, 2 ** 31 - 12)))
+        offs = [0] + [draw(st.sampled_from([0, 1, 2, 10])) for _ in range(n - 1)]
+        return [['yearMonthDuration', ('-' if sign < 0 else '') + f'P{base + o}M'] for o in offs]
+    base = draw(st.one_of(st.sampled_from(_DT_BASES), st.integers(1, 10 ** 9 * 86400))) * 10 ** 6 + \
+        draw(st.sampled_from([0, 0, 1, 500000, 999998]))
+    offs = [0] + [draw(st.sampled_from([0, 1, 2, 10, -1, 1000000])) for _ in range(n - 1)]
+    return [['dayTimeDuration', _dt_lexical(sign * (base + o), draw(st.integers(0, 2)))] for o in offs]
